@@ -11,7 +11,8 @@ pub struct SysSpec {
     pub writes: Vec<Res>,
     pub deps: Vec<String>,
     pub rt: u8, // 1..=5
-    pub zst: u8, // thread-local only: 0 = a system with fields, 1..=3 = one of three zero-sized system types
+    pub zst: u8, // thread-local: 0 = a system with fields, 1..=3 = one of three zero-sized system types; ordinary system: 10 + k = the k-th
+    // system of the typed family (real.rs: its data is one of shred's own SystemData types; reads / writes are then those of the family)
 }
 
 #[derive(Clone, Debug, PartialEq)]
@@ -285,6 +286,7 @@ pub struct Shape {
     pub p_multi: usize, // % of batches registered through MultiDispatcher
     pub self_dep: bool, // C18 only: a system may name itself as dependency
     pub rt_skew: bool,  // running-time hints are VeryShort (75%) or VeryLong (25%) only
+    pub p_typed: usize, // % of ordinary systems whose data is one of shred's own SystemData types over the static resources
 }
 
 impl Shape {
@@ -309,11 +311,19 @@ impl Shape {
             p_multi: 0,
             self_dep: false,
             rt_skew: false,
+            p_typed: 0,
         }
     }
 }
 
 pub const RES_POOL: [Res; 12] = POOL;
+/// the typed family (real.rs `typed!`): what the k-th member REALLY borrows (static resource types, dynamic id 0): (shared, exclusive)
+pub const TYPED: [(&[u8], &[u8]); 6] = [(&[], &[0]), (&[1], &[2]), (&[1], &[3]), (&[0], &[1]), (&[2], &[3]), (&[0, 3], &[])];
+pub fn typed_access(zst: u8) -> Option<(Vec<Res>, Vec<Res>)> {
+    let k = (zst as usize).checked_sub(10)?;
+    let t = TYPED.get(k)?;
+    Some((t.0.iter().map(|x| (*x, 0)).collect(), t.1.iter().map(|x| (*x, 0)).collect()))
+}
 const POOL: [Res; 12] = [
     (0, 0), (1, 0), (2, 0), (3, 0), (0, 1), (1, 1), (2, 2), (3, 7), (0, 2), (1, 5), (2, 1), (3, 1),
 ];
@@ -324,6 +334,7 @@ struct Gen<'r> {
     counter: usize,
     zst_used: u8,
     in_nest: bool,
+    ph_used: u8,
 }
 
 impl Gen<'_> {
@@ -339,8 +350,12 @@ impl Gen<'_> {
     fn fresh_name(&mut self) -> String {
         self.counter += 1;
         if self.rng.chance(5) {
-            // a user may name a system like the printer's placeholder for unnamed ones
-            return format!("unnamed_{}", self.rng.below(8));
+            // a user may name a system like the printer's placeholder for unnamed ones (each such name once per case: fresh)
+            let k = self.rng.below(8);
+            if self.ph_used & (1 << k) == 0 {
+                self.ph_used |= 1 << k;
+                return format!("unnamed_{}", k);
+            }
         }
         if self.sh.exotic_names {
             match self.rng.below(7) {
@@ -430,7 +445,14 @@ impl Gen<'_> {
                         reads.clear();
                     }
                 }
-                ops.push(Op::Sys(SysSpec { name: name.clone(), reads, writes, deps, rt, zst: 0 }));
+                let mut zst = 0;
+                if self.rng.chance(self.sh.p_typed) {
+                    let k = self.rng.below(TYPED.len());
+                    zst = 10 + k as u8;
+                    reads = TYPED[k].0.iter().map(|t| (*t, 0)).collect();
+                    writes = TYPED[k].1.iter().map(|t| (*t, 0)).collect();
+                }
+                ops.push(Op::Sys(SysSpec { name: name.clone(), reads, writes, deps, rt, zst }));
             }
             if !name.is_empty() && !names.contains(&name) {
                 names.push(name);
@@ -442,7 +464,7 @@ impl Gen<'_> {
 
 pub fn generate(rng: &mut Rng, sh: Shape) -> Case {
     let n = 1 + rng.below(sh.max_ops);
-    let mut g = Gen { rng, sh, counter: 0, zst_used: 0, in_nest: false };
+    let mut g = Gen { rng, sh, counter: 0, zst_used: 0, in_nest: false, ph_used: 0 };
     Case { ops: g.ops(n, 0) }
 }
 
